@@ -3,6 +3,7 @@
 package c17
 
 import (
+	"math"
 	"strings"
 
 	"pgregory.net/rapid"
@@ -183,7 +184,70 @@ func (g *gen) context() Ctx {
 // scope says what {0} and {1} mean where an expression is placed.
 type scope struct {
 	top    bool
-	v0, v1 string // element types; "" = not bound (documentation silent) => never referenced
+	v0, v1 string // element types; "" = not bound
+	// free: groups the helper does not bind in this sub-expression ({1}, {2}
+	// in @map/@filter - "{0} is the current element" -, {2} in @reduce/@for).
+	// They read as empty, like any group a match does not have, whatever was
+	// evaluated before.
+	free []int
+	hot  bool // read the free groups often (the readers of a history)
+}
+
+var (
+	freeMap    = []int{1, 1, 1, 2} // @map / @filter
+	freeReduce = []int{2}          // @reduce / @for
+)
+
+func (g *gen) freeP(sc scope, percent int, label string) bool {
+	if len(sc.free) == 0 {
+		return false
+	}
+	if sc.hot {
+		percent = 45
+	}
+	return g.p(percent, label)
+}
+
+func (g *gen) freeGrp(sc scope) *Node { return grp(sc.free[g.n(0, len(sc.free)-1, "freegrp")]) }
+
+// boundAtom: an atom that is not a free group.
+func (g *gen) boundAtom(sc scope, want string) *Node {
+	sc.free = nil
+	return g.atom(sc, want)
+}
+
+// unboundRead: an expression that looks at a group its helper does not bind,
+// directly or through a scalar helper. Empty is the only documented value, so
+// the forms are chosen to make any other value visible in the result.
+func (g *gen) unboundRead(sc scope, want string) *Node {
+	k := g.freeGrp(sc)
+	kk := func() *Node { return grp(k.I) }
+	switch g.n(0, 8, "unbform") {
+	case 0:
+		return call("coalesce", kk(), g.boundAtom(sc, want))
+	case 1:
+		return call("if", kk(), lit(g.pick([]string{"7", "set"}, "ifset")), g.boundAtom(sc, want))
+	case 2:
+		return call("not", kk())
+	case 3:
+		return call("eq", kk(), lit(""))
+	case 4:
+		return call("len", kk())
+	case 5:
+		if want != tNum {
+			return cat(g.boundAtom(sc, want), lit(g.pick([]string{":", "-", "", "/"}, "unbsep")), kk())
+		}
+		return call("sumi", g.boundAtom(sc, tNum), call("len", kk()))
+	case 6:
+		if want != tNum {
+			return cat(lit("<"), kk(), g.boundAtom(sc, want), lit(">"))
+		}
+		return call("coalesce", kk(), kk(), lit(itoa(g.n(-3, 9, "coalint"))))
+	case 7:
+		return call("coalesce", call("if", kk(), kk()), g.boundAtom(sc, want))
+	default:
+		return kk()
+	}
 }
 
 func (g *gen) anyDelim() string {
@@ -222,6 +286,9 @@ func (g *gen) sureNum(sc scope, lo, hi int) *Node {
 }
 
 func (g *gen) atom(sc scope, want string) *Node {
+	if g.freeP(sc, 8, "freeatom") {
+		return g.freeGrp(sc)
+	}
 	var opts []*Node
 	add := func(n *Node, w int) {
 		for i := 0; i < w; i++ {
@@ -279,6 +346,9 @@ func (g *gen) catOf(sc scope, want string) *Node {
 // scalar: an expression whose value is a single string (no separator), of
 // (about) the wanted type.
 func (g *gen) scalar(sc scope, depth int, want string) *Node {
+	if g.freeP(sc, 8, "freescalar") {
+		return g.unboundRead(sc, want)
+	}
 	if depth <= 0 || g.p(25, "scalaratom") {
 		if want != tNum && g.p(25, "cat") {
 			return g.catOf(sc, want)
@@ -362,7 +432,7 @@ func (g *gen) index() *Node {
 	if g.p(80, "nearidx") {
 		return lit(itoa(g.n(-10, 10, "idx")))
 	}
-	return lit(itoa(g.pick2([]int{-100, -15, 15, 100, 1 << 40, -(1 << 40)}, "faridx")))
+	return lit(itoa(g.pick2([]int{-100, -15, 15, 100, 1 << 40, -(1 << 40), 1 << 62, -(1 << 62), math.MaxInt64, math.MinInt64 + 1, math.MinInt64}, "faridx")))
 }
 
 func (g *gen) pick2(l []int, label string) int { return rapid.SampledFrom(l).Draw(g.t, label) }
@@ -400,6 +470,9 @@ func (g *gen) pred(sc scope, depth int) *Node {
 	want := tAny
 	if sc.v0 != "" {
 		want = sc.v0
+	}
+	if g.freeP(sc, 10, "freepred") {
+		return g.unboundRead(sc, want)
 	}
 	switch g.n(0, 11, "pred") {
 	case 0:
@@ -440,7 +513,7 @@ func (g *gen) pred(sc scope, depth int) *Node {
 func (g *gen) reduce(sc scope, depth int, l *Node, ty string) *Node {
 	var init *Node
 	memoTy := ty
-	inner := func(v0 string) scope { return scope{v0: v0, v1: ty} }
+	inner := func(v0 string) scope { return scope{v0: v0, v1: ty, free: freeReduce, hot: sc.hot} }
 	var red *Node
 	switch c := g.n(0, 11, "reducer"); {
 	case ty == tNum && c < 5:
@@ -564,7 +637,7 @@ func (g *gen) list(sc scope, depth int) (*Node, string) {
 		return g.forOf(sc, d)
 	case 8, 9, 10: // @map
 		l, ty := g.list(sc, d)
-		inner := scope{v0: ty}
+		inner := scope{v0: ty, free: freeMap, hot: sc.hot}
 		rt := g.pick([]string{tNum, tAscii, tAny}, "mapty")
 		if !sub(ty, rt) && g.p(50, "keepty") {
 			rt = ty
@@ -576,7 +649,7 @@ func (g *gen) list(sc scope, depth int) (*Node, string) {
 		return call("@map", l, g.quoteMaybe(f)), rt
 	case 11, 12, 13: // @filter
 		l, ty := g.list(sc, d)
-		inner := scope{v0: ty}
+		inner := scope{v0: ty, free: freeMap, hot: sc.hot}
 		if g.p(25, "isnumfilter") {
 			return call("@filter", l, g.quoteMaybe(call(g.pick([]string{"isnum", "isint"}, "isnum"), grp(0)))), tNum
 		}
@@ -584,6 +657,9 @@ func (g *gen) list(sc scope, depth int) (*Node, string) {
 	case 14, 15, 16: // @slice
 		l, ty := g.list(sc, d)
 		if g.p(50, "slicelen") {
+			if g.p(12, "farlen") {
+				return call("@slice", l, g.index(), lit(itoa(g.pick2([]int{100, 1 << 31, 1 << 62, math.MaxInt64 - 1, math.MaxInt64}, "farslen")))), ty
+			}
 			return call("@slice", l, g.index(), lit(itoa(g.n(0, 10, "slen")))), ty
 		}
 		return call("@slice", l, g.index()), ty
@@ -730,7 +806,7 @@ func (g *gen) forOf(sc scope, depth int) (*Node, string) {
 	// bounded by the index
 	ty := g.pick([]string{tNum, tAscii, tAny}, "forty")
 	b := g.sureNum(scope{}, 0, 10)
-	inner := scope{v0: ty, v1: tNum}
+	inner := scope{v0: ty, v1: tNum, free: freeReduce, hot: sc.hot}
 	var cond *Node = boundCond("lt", b, false, grp(1))
 	if g.p(30, "forand") {
 		cond = call("if", boundCond("lt", b, false, grp(1)), g.pred(inner, depth), lit(""))
